@@ -383,6 +383,16 @@ func (e *Engine) loopEnter(fr *frame, li *loopInfo, pred *ssa.BasicBlock, st *St
 	for _, inv := range cut.invs {
 		st.assume(e.evalInv(fr, li, st, inv))
 	}
+	if ls := e.loopSpec(fr, li); ls != nil {
+		for _, cl := range ls.Unfolds {
+			env := e.loopEnv(fr, li, st)
+			if app := env.eval(cl.Expr).V.(Scalar).T; app.Op == OApp {
+				if def := e.recDefinition(app); def != nil {
+					st.assume(def)
+				}
+			}
+		}
+	}
 	cut.variant, cut.varText = e.loopVariant(fr, li, st)
 	if st.calls == nil {
 		st.calls = c.Const(64, 0)
@@ -458,6 +468,9 @@ func (e *Engine) loopInvariants(fr *frame, li *loopInfo) []loopInv {
 	var invs []loopInv
 	if ls := e.loopSpec(fr, li); ls != nil {
 		for i, cl := range ls.Invs {
+			if cl.Thorough && e.Tier != "thorough" {
+				continue
+			}
 			invs = append(invs, loopInv{name: clauseName(cl, i), cl: cl})
 		}
 	}
@@ -469,7 +482,7 @@ func (e *Engine) loopInvariants(fr *frame, li *loopInfo) []loopInv {
 			if e.typeMatches(p.Type(), ti) {
 				ti := ti
 				invs = append(invs, loopInv{name: fmt.Sprintf("typeinv(%s)", p.Name()), gen: func(f *frame, st *State) *Term {
-					env := &specEnv{e: e, heap: &st.heap, vars: map[string]SVal{ti.Var: {V: f.regs[p], T: p.Type()}}, bound: map[string]*Term{}}
+					env := &specEnv{e: e, heap: &st.heap, vars: map[string]SVal{ti.Var: {V: f.regs[p], T: p.Type()}}, bound: map[string]*Term{}, ext: st.ext}
 					if pp, ok := e.P.All[ti.PkgPath]; ok {
 						env.pkg = pp.Types
 					}
@@ -520,6 +533,30 @@ func (e *Engine) loopInvariants(fr *frame, li *loopInfo) []loopInv {
 		}
 		iv := initV
 		up := step > 0
+		// range-style guard in the header: (phi + step) < bound with a loop-invariant bound  ==>  phi < bound
+		if up && len(li.head.Instrs) > 0 {
+			if iff, ok := li.head.Instrs[len(li.head.Instrs)-1].(*ssa.If); ok && li.body[li.head.Succs[0]] {
+				if bo, ok := iff.Cond.(*ssa.BinOp); ok && bo.Op == token.LSS {
+					if nx, ok := bo.X.(*ssa.BinOp); ok && nx.X == ph && nx.Op == token.ADD && nx.Block() == li.head {
+						bound := bo.Y
+						outside := true
+						if bi, isI := bound.(ssa.Instruction); isI && li.body[bi.Block()] {
+							outside = false
+						}
+						if outside {
+							invs = append(invs, loopInv{name: "below(" + ph.Comment + ")", gen: func(f *frame, st *State) *Term {
+								x := f.regs[ph].(Scalar).T
+								bv, ok := e.evalHead(f, li, bound, 0)
+								if !ok {
+									return c.True()
+								}
+								return c.Slt(x, bv.(Scalar).T)
+							}})
+						}
+					}
+				}
+			}
+		}
 		invs = append(invs, loopInv{name: "counter(" + ph.Comment + ")", gen: func(f *frame, st *State) *Term {
 			x := f.regs[ph].(Scalar).T
 			i0 := e.get(f, iv).(Scalar).T
@@ -547,7 +584,8 @@ func (e *Engine) loopNames(fr *frame, li *loopInfo) map[string]SVal {
 			continue
 		}
 		for _, in := range b.Instrs {
-			if d, ok := in.(*ssa.DebugRef); ok && !d.IsAddr {
+			if d, ok := in.(*ssa.DebugRef); ok {
+				// address-taken locals are exposed as pointers (p.f then reads the current memory)
 				if id, ok := d.Expr.(*ast.Ident); ok {
 					if v, ok := fr.regs[d.X]; ok {
 						names[id.Name] = SVal{V: v, T: d.X.Type()}
@@ -587,7 +625,7 @@ func (e *Engine) loopEnvAll(fr *frame, li *loopInfo, st *State) *specEnv {
 		for _, in := range b.Instrs {
 			switch x := in.(type) {
 			case *ssa.DebugRef:
-				if id, ok := x.Expr.(*ast.Ident); ok && !x.IsAddr {
+				if id, ok := x.Expr.(*ast.Ident); ok {
 					if v, ok := fr.regs[x.X]; ok {
 						if _, dup := env.vars[id.Name]; !dup {
 							env.vars[id.Name] = SVal{V: v, T: x.X.Type()}
